@@ -405,7 +405,8 @@ def units(tier):
                   ("fff", [1, 2], {"packcrc": True}), ("ff", [2], {"omit_numunpack": False}),
                   ("ff", [2], {"ncoders": 2}), ("ffd", [2], {"dummy": 3}), ("fff", [1, 1, 1], {"crc_at": "folder"}),
                   ("ff", [1, 1], {"crc_at": "folder", "omit_substreams": True}), ("fef", [2], {"attrs": "none", "times": "none"}),
-                  ("lf", [2], {}), ("ff", [2], {"dummy": 200})]
+                  ("lf", [2], {}), ("ff", [2], {"dummy": 200}),
+                  ("ff", [1, 1], {"ncoders": 2, "bind_style": "first-is-final", "inter": 7})]
     news = ["s", "ss", "sd", "", "d", "l"] if tier == "quick" else ["s", "ss", "sd", "ds", "sss", "", "d", "l", "sl", "ls"]
     for (p, f, o) in bases:
         for nw in news:
